@@ -155,6 +155,19 @@ func (m vKindMatcher) Match(cx *Connection) (bool, error) {
 	return b[0] == m.kind, nil
 }
 
+// matchers that do not read: they decide without looking (vConstMatcher) or by peeking at the
+// prefetched bytes (vPeekMatcher); used behind a reading matcher in multi-matcher sets
+type vConstMatcher struct{ verdict bool }
+
+func (m vConstMatcher) Match(*Connection) (bool, error) { return m.verdict, nil }
+
+type vPeekMatcher struct{ kind byte }
+
+func (m vPeekMatcher) Match(cx *Connection) (bool, error) {
+	b := cx.MatchingBytes()
+	return len(b) > 0 && b[0] == m.kind, nil
+}
+
 type vScen struct {
 	release chan struct{} // closed by the run when held ('H') connections may finish
 	conns   []*vScConn
@@ -195,14 +208,14 @@ func vIDOf(hdr []byte) int { return int(hdr[1])<<8 | int(hdr[2]) }
 
 func (k *vScConn) hijack() bool {
 	switch k.kind {
-	case 'F', 'N', 'S', 'L':
+	case 'F', 'N', 'S', 'L', 'M', 'P', 'Q':
 		return true
 	}
 	return false
 }
 
 func (k *vScConn) consumed() int {
-	if k.kind == 'N' {
+	if k.kind == 'N' || k.kind == 'Q' {
 		return vC13Prefix
 	}
 	return 0
@@ -210,7 +223,7 @@ func (k *vScConn) consumed() int {
 
 func (k *vScConn) outcome() string {
 	switch k.kind {
-	case 'F', 'N', 'S', 'L':
+	case 'F', 'N', 'S', 'L', 'M', 'P', 'Q':
 		return "Hijack"
 	case 'T', 'H':
 		return "Consumed"
@@ -254,7 +267,21 @@ func vC13Routes(sc *vScen) RouteList {
 		return next.Handle(cx)
 	})
 	never := NextHandlerFunc(func(cx *Connection, next Handler) error { return errors.New("verif: unreachable") })
-	return RouteList{mk('T', terminal), mk('R', reject), mk('N', nonTerminal), mk('S', tlsLike), mk('E', never), mk('H', held)}
+	// matcher sets with several matchers, the reading one first (like {tls, remote_ip}):
+	//   'M'  {reads+matches, says no}                    -> set does not match, falls through
+	//   'P'  {reads+matches, peeks+matches, says yes}    -> non-terminal handler that reads nothing
+	//   'Q'  {reads+matches, says yes, peeks+matches}    -> non-terminal handler that consumes a prefix
+	// In all three the connection reaches the wrapped listener and must replay its stream from
+	// the first unconsumed byte, whatever the matchers of the set looked at.
+	passOn := NextHandlerFunc(func(cx *Connection, next Handler) error { return next.Handle(cx) })
+	multi := func(ms MatcherSet, h NextHandler) *Route {
+		return &Route{matcherSets: MatcherSets{ms}, middleware: []Middleware{wrapHandler(h)}}
+	}
+	return RouteList{
+		multi(MatcherSet{vKindMatcher{'M'}, vConstMatcher{false}}, never),
+		multi(MatcherSet{vKindMatcher{'P'}, vPeekMatcher{'P'}, vConstMatcher{true}}, passOn),
+		multi(MatcherSet{vKindMatcher{'Q'}, vConstMatcher{true}, vPeekMatcher{'Q'}}, nonTerminal),
+		mk('T', terminal), mk('R', reject), mk('N', nonTerminal), mk('S', tlsLike), mk('E', never), mk('H', held)}
 }
 
 // ---- scenario generation ------------------------------------------------------------------------
@@ -267,7 +294,7 @@ func (sc *vScen) add(k *vScConn) {
 
 func vC13Gen(r *vRng) *vScen {
 	n := 2 + r.Intn(9)
-	kinds := []byte{'F', 'F', 'F', 'T', 'R', 'N', 'S', 'E', 'L', 'X', 'Z', 'F', 'T', 'N', 'H'}
+	kinds := []byte{'F', 'F', 'F', 'T', 'R', 'N', 'S', 'E', 'L', 'X', 'Z', 'F', 'T', 'N', 'H', 'M', 'P', 'Q', 'M'}
 	sc := &vScen{byID: map[int]*vScConn{}, byTag: map[int]*vScConn{}, release: make(chan struct{})}
 	for i := 0; i < n; i++ {
 		k := &vScConn{id: i + 1, tag: int(vC13Tag.Add(1)) & 0x7fff, kind: kinds[r.Intn(len(kinds))]}
@@ -282,7 +309,7 @@ func vC13Gen(r *vRng) *vScen {
 				ln = 2048 + r.Intn(2500) // more than one chunk arrives before/after the hand-over
 			}
 		}
-		if k.kind == 'N' && ln < vC13Prefix+vC13Need+4 {
+		if (k.kind == 'N' || k.kind == 'Q') && ln < vC13Prefix+vC13Need+4 {
 			// after the non-terminal handler consumed its prefix the later routes still need their bytes
 			ln = vC13Prefix + vC13Need + 4
 		}
@@ -806,6 +833,20 @@ func vC13OverlapBoundary() (*vScen, vC13Plan) {
 	return sc, pl
 }
 
+// one connection per multi-matcher route plus a plain fall-through one, segmented so that the
+// sets are evaluated over several prefetches
+func vC13MultiMatcher() (*vScen, vC13Plan) {
+	sc := &vScen{byID: map[int]*vScConn{}, byTag: map[int]*vScConn{}, release: make(chan struct{})}
+	for i, kind := range []byte{'M', 'P', 'Q', 'F'} {
+		k := &vScConn{id: i + 1, tag: int(vC13Tag.Add(1)) & 0x7fff, kind: kind, startUs: i * 300}
+		k.stream = vC13Stream(kind, k.tag, 40+7*i)
+		k.segs = []int{2, 3, len(k.stream) - 5}
+		k.gapUs = 100
+		sc.add(k)
+	}
+	return sc, vC13Plan{procs: 2, closeAfter: -1, readLate: false, acceptDelay: []int{100}}
+}
+
 func TestVerifC13(t *testing.T) {
 	out := vOpen()
 	defer out.Close()
@@ -829,6 +870,8 @@ func TestVerifC13(t *testing.T) {
 	run(sc, pl, "overlap")
 	sc, pl = vC13OverlapBoundary()
 	run(sc, pl, "overlap-boundary")
+	sc, pl = vC13MultiMatcher()
+	run(sc, pl, "multi-matcher-sets")
 	for i := 0; i < n; i++ {
 		sc := vC13Gen(r)
 		pl := vC13Plan1(r)
